@@ -60,6 +60,30 @@ pub struct Plan {
     /// script regenerating its inputs would
     #[serde(default)]
     pub reuse_paths: bool,
+    /// xmod scenario: the same inputs with the shared bare name renamed apart, used to classify
+    /// a violation as the known finding F1 (it disappears) or as something else
+    #[serde(default)]
+    pub apart: Option<Vec<Input>>,
+}
+
+/// the set with the deliberately shared bare name `Shared-Name` renamed apart per module
+pub fn rename_shared_apart(set: &ModuleSet) -> ModuleSet {
+    let mut s = set.clone();
+    for (mi, m) in s.modules.iter_mut().enumerate() {
+        let to = format!("Shared-Name{mi}");
+        for a in &mut m.assigns {
+            a.text = a.text.replace("Shared-Name", &to);
+            if a.name == "Shared-Name" {
+                a.name = to.clone();
+            }
+            for r in &mut a.refs {
+                if r == "Shared-Name" {
+                    *r = to.clone();
+                }
+            }
+        }
+    }
+    s
 }
 
 pub fn canonical(set: &ModuleSet) -> Arrangement {
@@ -133,19 +157,28 @@ fn ref_key(input: usize, backend: &BackendSel) -> String {
     format!("{input}|{}", serde_json::to_string(backend).unwrap())
 }
 
-pub struct C11Threads;
+pub struct C11Threads {
+    /// inputs deliberately define one bare top-level name in two modules (finding F1)
+    pub xmod: bool,
+}
 
 impl Scenario for C11Threads {
     fn property(&self) -> &'static str {
         "C11"
     }
     fn name(&self) -> &'static str {
-        "threads"
+        if self.xmod {
+            "xmod-name"
+        } else {
+            "threads"
+        }
     }
     fn runs(&self, tier: Tier) -> u64 {
-        match tier {
-            Tier::Quick => 6000,
-            Tier::Thorough => 80000,
+        match (tier, self.xmod) {
+            (Tier::Quick, false) => 6000,
+            (Tier::Thorough, false) => 80000,
+            (Tier::Quick, true) => 300,
+            (Tier::Thorough, true) => 3000,
         }
     }
     fn needs_reference(&self) -> bool {
@@ -160,7 +193,7 @@ impl Scenario for C11Threads {
         let mut w = root.fork("workload");
         // ---- inputs
         let mut inputs: Vec<Input> = vec![];
-        let use_corpus = !env.corpus.is_empty() && w.chance(1, 4);
+        let use_corpus = !self.xmod && !env.corpus.is_empty() && w.chance(1, 4);
         if use_corpus {
             // walk the corpus systematically so that every file is reached, plus a random one
             let a = (idx as usize / 4) % env.corpus.len();
@@ -179,6 +212,10 @@ impl Scenario for C11Threads {
             // and they are not definitions. Comment (in)sensitivity is C13 (not decided here).
             cfg.comments = false;
             cfg.intra_shared_enumerals = true;
+            if self.xmod {
+                cfg.xmod_same_name = true;
+                cfg.modules = (2, 4);
+            }
             cfg.classes = true;
             cfg.real_components = true;
             if w.chance(1, 3) {
@@ -252,13 +289,29 @@ impl Scenario for C11Threads {
             capture_stdout: false,
         };
         let reuse_paths = root.fork("layout").chance(1, 3);
-        serde_json::to_value(&Plan { seed, inputs, ops, sim: simcfg, schedule: None, reuse_paths }).unwrap()
+        let apart = if self.xmod {
+            Some(inputs.iter().map(|i| match i {
+                Input::Gen(s) => Input::Gen(rename_shared_apart(s)),
+                other => other.clone(),
+            }).collect())
+        } else {
+            None
+        };
+        serde_json::to_value(&Plan { seed, inputs, ops, sim: simcfg, schedule: None, reuse_paths, apart }).unwrap()
     }
 
     /// One pristine grandchild per (input, backend) key: canonical arrangement, literals,
     /// one thread, no history.
-    fn reference(&self, plan: &Value, _env: &Env) -> Value {
+    fn reference(&self, plan: &Value, env: &Env) -> Value {
         let p = parse_plan(plan);
+        if let Some(apart) = &p.apart {
+            let mut q = p.clone();
+            q.apart = None;
+            let main = self.reference(&serde_json::to_value(&q).unwrap(), env);
+            q.inputs = apart.clone();
+            let ap = self.reference(&serde_json::to_value(&q).unwrap(), env);
+            return json!({"main": main, "apart": ap});
+        }
         let mut refs = serde_json::Map::new();
         for h in &p.ops {
             for op in h {
@@ -287,8 +340,27 @@ impl Scenario for C11Threads {
         Value::Object(refs)
     }
 
-    fn execute(&self, plan: &Value, refs: &Value, root: &str, _env: &Env) -> Outcome {
+    fn execute(&self, plan: &Value, refs: &Value, root: &str, env: &Env) -> Outcome {
         let p = parse_plan(plan);
+        if let Some(apart) = &p.apart {
+            let mut q = p.clone();
+            q.apart = None;
+            let mut out = self.execute(&serde_json::to_value(&q).unwrap(), &refs["main"], root, env);
+            if !out.violations.is_empty() {
+                let sub = format!("{root}/apart");
+                std::fs::create_dir_all(&sub).unwrap();
+                q.inputs = apart.clone();
+                let again = self.execute(&serde_json::to_value(&q).unwrap(), &refs["apart"], &sub, env);
+                if again.violations.is_empty() && again.harness_error.is_none() && again.inconclusive.is_empty() {
+                    for v in &mut out.violations {
+                        v.msg = format!("[{}] {}", v.oracle, v.msg);
+                        v.oracle = "xmod-same-bare-name".into();
+                    }
+                    out.count("violations_that_disappear_when_renamed_apart", out.violations.len() as u64);
+                }
+            }
+            return out;
+        }
         let mut out = Outcome::default();
         std::env::remove_var("CARGO");
         std::env::set_var("CARGO_HOME", format!("{root}/cargo-home"));
@@ -542,6 +614,20 @@ impl Scenario for C11Threads {
                     }
                 }
             }
+        }
+        if p.apart.is_some() {
+            // keep the renamed-apart twin in step with the shrunk inputs
+            out = out
+                .into_iter()
+                .map(|v| {
+                    let mut q: Plan = serde_json::from_value(v).unwrap();
+                    q.apart = Some(q.inputs.iter().map(|i| match i {
+                        Input::Gen(s) => Input::Gen(rename_shared_apart(s)),
+                        other => other.clone(),
+                    }).collect());
+                    serde_json::to_value(&q).unwrap()
+                })
+                .collect();
         }
         out
     }
